@@ -28,6 +28,44 @@ CLAIMED["C11"] = dict(
     technique="exhaustive insertion of lexical irregularities at every token gap, oracle = independent scanner vs parsed root span",
 )
 
+UNI = "the program universe U(n): type-directed size-exact enumeration over 8 menus (complete below the per-menu size bound) plus 5 recursion/effect schemas with every hole filler below the filler bound (78k programs quick, 416k thorough)"
+CLAIMED["C01"] = dict(
+    category="exploration",
+    text="Every program of " + UNI + " is printed, accepted by the real front end, linked and stepped one public Eval::step at a time under catch_unwind; any unwind other than the defined arithmetic trap (or a host I/O failure of the legacy stream operations) is a violation attributed to the program text. Decides the property for all programs below the bound; says nothing above it.",
+    design_ref="C01",
+    note="Trusts catch_unwind + panic location as the stuck-state observer and the harness's classification of defined traps.",
+    technique="bounded-exhaustive program enumeration, each program stepped on the real interpreter under a stuck-state observer",
+)
+CLAIMED["C02"] = dict(
+    category="exploration",
+    text="Every program of " + UNI + ", printed under fresh naming and under maximal shadowing, is run on zydeco_dynamics::Runtime and on an independent big-step CBPV evaluator over the harness AST (no shared code with desugaring, resolution, linking or the CK machine); output bytes and final result must agree. Exhaustive below the bound.",
+    design_ref="C02",
+    note="Trusts the reference evaluator (boring by construction; validated by mass agreement) and the printer's precedence handling.",
+    technique="bounded-exhaustive program enumeration with a differential oracle against an independent reference evaluator",
+)
+CLAIMED["C03"] = dict(
+    category="exploration",
+    text="Positive side: every program of the universe is well typed by construction in the reference system and printed with maximal annotations, so check must accept it. Negative side: see DESIGN (definite-error mutants).",
+    design_ref="C03",
+    note="Trusts the generator's typing discipline (type-directed construction) and the annotation policy; a rejected class is first treated as a generator bug.",
+    technique="bounded-exhaustive enumeration of well-typed programs and of definite-error mutants, accept/reject oracle",
+)
+CLAIMED["C08"] = dict(
+    category="model_checking",
+    text="Explicit-state exploration of the real zydeco_utils::graph release protocol: all 66,066 directed graphs with self-loops on 1..4 nodes x 3 node numberings x hash seeds, every non-empty subset of offered groups (and single-node partial releases) as transitions, invariant checked in every state against transitive-closure SCCs; plus structured 5..8-node families. 8.8M states / 20M transitions in the quick tier.",
+    design_ref="C08",
+    note="States are deduplicated by released set with the offers re-compared on every revisit (path independence is itself checked). Hash seeds are owned through the getrandom interposer; K seeds is a bounded enumeration of the seed space, not all iteration orders.",
+    technique="explicit-state model checking of the implementation's release protocol over all graphs up to 4 nodes",
+    engine="zyv",
+)
+CLAIMED["C09"] = dict(
+    category="model_checking",
+    text="Every import edge set on 4 files (65,536 directory states) and every import/companion/signature-edge configuration on 3 files (111,616 states) is written to disk and loaded by the real CompilerSession::graph under several hash seeds; the answer is compared with a reference reachability/cycle DFS (sources, edges, signature pairing, provider order, reported cycle steps).",
+    design_ref="C09",
+    note="Graph level only so far (splice semantics and path spellings: see DESIGN). States = directory states, transitions = loads, all on the implementation.",
+    technique="exhaustive enumeration of file-graph states, each loaded by the real loader and compared with a reference graph model",
+)
+
 NOT_YET = {}
 
 def main():
